@@ -3,7 +3,7 @@
 # MANIFEST.json / evidence of main's properties = ours (regenerated afterwards)
 b="$1"
 cd /verif || exit 2
-git merge --no-edit "$b" >/dev/null 2>&1
+git checkout -q -- evidence 2>/dev/null; git merge --no-edit "$b" >/dev/null 2>&1
 for f in $(git diff --name-only --diff-filter=U); do
   case "$f" in
     lean/RB.lean)
